@@ -1808,6 +1808,9 @@ func (x *explorer) builtin(st *state, fr *frame, name string, args []*T, ci ssa.
 		if a.Op == "lit" {
 			return mkConst(fmt.Sprint(len(a.Args)), types.Typ[types.Int])
 		}
+		if a.IsNil() {
+			return mkConst("0", types.Typ[types.Int])
+		}
 		if a.Op == "const" {
 			if s, ok := a.StrConst(); ok {
 				return mkConst(fmt.Sprint(len(s)), types.Typ[types.Int])
